@@ -19,7 +19,13 @@ OKEXC = ('RuleIDMatchError',)
 
 
 def one(b, cm, nrs, s, side, klass):
-    out = obs_bits(with_timeout(lambda: cm.decompress(mk(s, side)), 5))
+    sb_ = mk(s, side)
+    from core import raw
+    from schc_run import bytes_cm_decompress
+    rawtok = raw(sb_)
+    res_ = with_timeout(lambda: cm.decompress(sb_), 5)
+    out = obs_bits(res_)
+    bytes_cm_decompress(b, klass, rawtok, None, cm.context.ruleset, res_)
     fails = []
     if out[0] == 'EXC' and out[1] not in OKEXC:
         fails.append('decompress raised %s on a %d-bit string' % (out[1], len(s)))
